@@ -118,7 +118,7 @@ class LineTracer:
 
     def _on_line(self, code: Any, line: int) -> Any:
         tag = self.ff.tag(code.co_filename)
-        if tag is None:
+        if tag is None or (tag == "S" and code.co_qualname.startswith("__create_fn__")):
             return _MON.DISABLE
         if threading.get_ident() != self._ident:
             return None
@@ -334,8 +334,8 @@ class Scheduler:
     # -- tracing ------------------------------------------------------------------------------
     def _on_line(self, code: Any, line: int) -> Any:
         tag = self.ff.tag(code.co_filename)
-        if tag is None:
-            return _MON.DISABLE
+        if tag is None or (tag == "S" and code.co_qualname.startswith("__create_fn__")):
+            return _MON.DISABLE  # not celpy: e.g. dataclass-generated "<string>" functions of lark
         ws = self._by_ident.get(threading.get_ident())
         if ws is None or ws.done or not ws.started:
             return None
